@@ -1,14 +1,1079 @@
-//! stub (to be replaced)
+//! Scenario K1: the real client (`Connection`, `MethodCall::{call, more, next, recv, oneway}`, error
+//! mapping) in 1..8 client tasks sharing one `Arc<RwLock<Connection>>`, against a scripted fake
+//! server played by the environment task on a simulated socket pair. The client crate instance is
+//! `varlink_cs` (same sources, the connection lock is shuttle's) so that every lock acquisition and
+//! every socket operation of every client thread is a scheduling point.
+//!
+//! The fake server withholds each reply until the environment's turn comes (by default: until
+//! nothing else can run), which is what creates in-flight state for the other threads to collide
+//! with. What it replies travels inside the request (`parameters.spec`).
+
+use std::collections::VecDeque;
+use std::io::BufReader;
+use std::sync::atomic::{AtomicBool, Ordering};
+use std::sync::{Arc, Mutex as StdMutex};
+
 use serde_derive::{Deserialize, Serialize};
-use crate::report::RunResult;
-#[derive(Clone, Debug, Serialize, Deserialize)]
-pub struct KCase {}
-pub fn eval_k(_c: &KCase) -> RunResult { RunResult::default() }
-pub fn shrinks(_c: &KCase) -> Vec<KCase> { vec![] }
+use serde_json::{json, Value};
+use varlink_cs::{Connection, ErrorKind, MethodCall};
+
+use crate::cases::Case;
+use crate::net::{client_pair, new_net, ConnOpts, NetRef};
+use crate::oracle::{viol, Violation};
 use crate::props::{Plan, Space};
-use crate::report::Tier;
-pub const REAL_K: [&str; 0] = [];
-pub const STUB_K: [&str; 0] = [];
-pub fn c04_spaces(_t: Tier) -> Vec<Space> { vec![] }
-pub fn c05_spaces(_t: Tier) -> Vec<Space> { vec![] }
-pub fn c07_plan(_t: Tier) -> Plan { unimplemented!() }
+use crate::report::{RunResult, Tier};
+use crate::rng::{Fnv, Rng};
+use crate::sched::{run_sim, wait_quiescent, SchedCfg, SimEnd};
+
+#[derive(Clone, Debug, Serialize, Deserialize, PartialEq)]
+pub enum RSpec {
+    Ok,
+    OkNoParams,
+    /// name: 0 InterfaceNotFound, 1 MethodNotFound, 2 MethodNotImplemented, 3 InvalidParameter,
+    /// 4 custom error; params: 0 proper, 1 member absent, 2 ill-typed, 3 other members only
+    Err { name: u8, params: u8 },
+}
+
+#[derive(Clone, Debug, Serialize, Deserialize, PartialEq)]
+pub enum KOp {
+    Call(RSpec),
+    Oneway,
+    /// call(), then a second call() on the same call object
+    Resend(RSpec),
+    /// more(), then `nexts` calls of next(); `nested`: after the first item, try a new call
+    More { conts: u8, fin: RSpec, nexts: u8, nested: bool },
+}
+
+#[derive(Clone, Debug, Serialize, Deserialize, PartialEq)]
+pub struct KCase {
+    pub tasks: Vec<Vec<KOp>>,
+    pub cli_read_plan: Vec<u16>,
+    pub cli_write_plan: Vec<u16>,
+    /// sizes in which the fake server releases reply bytes, one per turn; exhausted = everything pending
+    pub srv_chunks: Vec<u16>,
+    /// percent of server turns taken without waiting for quiescence
+    pub eager: u8,
+    /// fault: the server closes the connection after this many reply bytes
+    pub eof_after: Option<usize>,
+    pub sched: SchedCfg,
+}
+
+const STD_ERR: [(&str, &str); 4] = [
+    ("org.varlink.service.InterfaceNotFound", "interface"),
+    ("org.varlink.service.MethodNotFound", "method"),
+    ("org.varlink.service.MethodNotImplemented", "method"),
+    ("org.varlink.service.InvalidParameter", "parameter"),
+];
+const CUSTOM_ERR: &str = "org.sim.k.Boom";
+
+fn spec_json(s: &RSpec) -> Value {
+    serde_json::to_value(s).unwrap()
+}
+
+fn err_params(name: u8, params: u8, token: &str) -> Option<Value> {
+    let field = if (name as usize) < 4 { STD_ERR[name as usize].1 } else { "detail" };
+    match params {
+        0 => Some(json!({ field: format!("val-{}", token) })),
+        1 => None,
+        2 => Some(json!({ field: 5 })),
+        _ => Some(json!({"other": token})),
+    }
+}
+
+/// the frame the fake server sends for a final reply
+fn final_frame(spec: &RSpec, token: &str) -> Value {
+    match spec {
+        RSpec::Ok => json!({"parameters": {"token": token}}),
+        RSpec::OkNoParams => json!({}),
+        RSpec::Err { name, params } => {
+            let n = if (*name as usize) < 4 { STD_ERR[*name as usize].0 } else { CUSTOM_ERR };
+            let mut m = serde_json::Map::new();
+            m.insert("error".into(), json!(n));
+            if let Some(p) = err_params(*name, *params, token) {
+                m.insert("parameters".into(), p);
+            }
+            Value::Object(m)
+        }
+    }
+}
+
+/// what the client must hand back for that frame (independent of /repo's mapping code)
+fn expected_outcome(spec: &RSpec, token: &str) -> String {
+    match spec {
+        RSpec::Ok => format!("Ok:{}", json!({ "token": token })),
+        RSpec::OkNoParams => "Ok:{}".to_string(),
+        RSpec::Err { name, params } => {
+            if (*name as usize) < 4 {
+                let kind = ["InterfaceNotFound", "MethodNotFound", "MethodNotImplemented", "InvalidParameter"][*name as usize];
+                let p = if *params == 0 { format!("val-{}", token) } else { String::new() };
+                format!("E:{}:{}", kind, p)
+            } else {
+                format!(
+                    "E:Reply:{}:{}",
+                    CUSTOM_ERR,
+                    err_params(*name, *params, token).map(|v| v.to_string()).unwrap_or_else(|| "-".into())
+                )
+            }
+        }
+    }
+}
+
+fn outcome_of(r: &Result<Value, varlink_cs::Error>) -> String {
+    match r {
+        Ok(v) => format!("Ok:{}", v),
+        Err(e) => err_outcome(e),
+    }
+}
+
+fn err_outcome(e: &varlink_cs::Error) -> String {
+    match e.kind() {
+        ErrorKind::InterfaceNotFound(s) => format!("E:InterfaceNotFound:{}", s),
+        ErrorKind::MethodNotFound(s) => format!("E:MethodNotFound:{}", s),
+        ErrorKind::MethodNotImplemented(s) => format!("E:MethodNotImplemented:{}", s),
+        ErrorKind::InvalidParameter(s) => format!("E:InvalidParameter:{}", s),
+        ErrorKind::VarlinkErrorReply(r) => format!(
+            "E:Reply:{}:{}",
+            r.error.as_deref().unwrap_or("-"),
+            r.parameters.as_ref().map(|v| v.to_string()).unwrap_or_else(|| "-".into())
+        ),
+        ErrorKind::ConnectionBusy => "E:Busy".into(),
+        ErrorKind::MethodCalledAlready => "E:CalledAlready".into(),
+        ErrorKind::ConnectionClosed => "E:Closed".into(),
+        ErrorKind::IteratorOldReply => "E:IteratorOldReply".into(),
+        ErrorKind::Io(k) => format!("E:Io:{:?}", k),
+        ErrorKind::SerdeJsonDe(_) => "E:SerdeDe".into(),
+        ErrorKind::SerdeJsonSer(_) => "E:SerdeSer".into(),
+        other => format!("E:Other:{:?}", other),
+    }
+}
+
+#[derive(Clone, Debug)]
+pub struct OpRec {
+    pub task: usize,
+    pub op: usize,
+    /// "call" "oneway" "resend" "more" "item" "end" "nested"
+    pub what: &'static str,
+    pub item: usize,
+    pub token: String,
+    pub inv: u64,
+    pub ret: u64,
+    pub outcome: String,
+}
+
+#[derive(Clone, Debug)]
+pub struct Arrival {
+    pub token: String,
+    pub more: bool,
+    pub oneway: bool,
+    pub seq: u64,
+}
+
+#[derive(Default)]
+pub struct KObs {
+    pub ops: Vec<OpRec>,
+    pub arrivals: Vec<Arrival>,
+    pub server_violations: Vec<Violation>,
+    pub log_hash: u64,
+    pub hang: bool,
+    pub finished: bool,
+    pub reply_bytes: usize,
+    pub cli_short_reads: u64,
+    pub cli_read_eintr: u64,
+    pub busy_seen: u64,
+    pub eof_fired: bool,
+    pub max_in_buffer_frames: usize,
+}
+
+type Results = Arc<StdMutex<Vec<OpRec>>>;
+
+fn run_task(net: NetRef, conn: Arc<shuttle::sync::RwLock<Connection>>, task: usize, ops: Vec<KOp>, results: Results) {
+    let rec = |r: OpRec| results.lock().unwrap_or_else(|e| e.into_inner()).push(r);
+    for (oi, op) in ops.iter().enumerate() {
+        let token = format!("t{}-{}", task, oi);
+        let new_call = |tok: &str, spec: Value| {
+            MethodCall::<Value, Value, varlink_cs::Error>::new(conn.clone(), "org.sim.k.Do", json!({"token": tok, "spec": spec}))
+        };
+        match op {
+            KOp::Call(spec) | KOp::Resend(spec) => {
+                let mut mc = new_call(&token, json!({"final": spec_json(spec)}));
+                let inv = net.stamp(format!("inv {} call", token));
+                let r = mc.call();
+                let ret = net.stamp(format!("ret {} call", token));
+                rec(OpRec { task, op: oi, what: "call", item: 0, token: token.clone(), inv, ret, outcome: outcome_of(&r) });
+                if matches!(op, KOp::Resend(_)) {
+                    let inv = net.stamp(format!("inv {} resend", token));
+                    let r = mc.call();
+                    let ret = net.stamp(format!("ret {} resend", token));
+                    rec(OpRec { task, op: oi, what: "resend", item: 0, token: token.clone(), inv, ret, outcome: outcome_of(&r) });
+                }
+            }
+            KOp::Oneway => {
+                let mut mc = new_call(&token, json!({"final": spec_json(&RSpec::Ok)}));
+                let inv = net.stamp(format!("inv {} oneway", token));
+                let r = mc.oneway();
+                let ret = net.stamp(format!("ret {} oneway", token));
+                let outcome = match &r {
+                    Ok(()) => "Ok".to_string(),
+                    Err(e) => err_outcome(e),
+                };
+                rec(OpRec { task, op: oi, what: "oneway", item: 0, token: token.clone(), inv, ret, outcome });
+            }
+            KOp::More { conts, fin, nexts, nested } => {
+                let mut mc = new_call(&token, json!({"conts": conts, "final": spec_json(fin)}));
+                let inv = net.stamp(format!("inv {} more", token));
+                let started = mc.more().map(|_| ());
+                let ret = net.stamp(format!("ret {} more", token));
+                let ok = started.is_ok();
+                rec(OpRec {
+                    task,
+                    op: oi,
+                    what: "more",
+                    item: 0,
+                    token: token.clone(),
+                    inv,
+                    ret,
+                    outcome: match &started {
+                        Ok(()) => "Ok".into(),
+                        Err(e) => err_outcome(e),
+                    },
+                });
+                if !ok {
+                    continue;
+                }
+                for j in 0..*nexts as usize {
+                    if *nested && j == 1 {
+                        let ntok = format!("{}-n", token);
+                        let mut inner = new_call(&ntok, json!({"final": spec_json(&RSpec::Ok)}));
+                        let inv = net.stamp(format!("inv {} nested", ntok));
+                        let r = inner.call();
+                        let ret = net.stamp(format!("ret {} nested", ntok));
+                        rec(OpRec { task, op: oi, what: "nested", item: j, token: ntok, inv, ret, outcome: outcome_of(&r) });
+                    }
+                    let inv = net.stamp(format!("inv {} next{}", token, j));
+                    let it = mc.next();
+                    let ret = net.stamp(format!("ret {} next{}", token, j));
+                    match it {
+                        Some(r) => rec(OpRec { task, op: oi, what: "item", item: j, token: token.clone(), inv, ret, outcome: outcome_of(&r) }),
+                        None => {
+                            rec(OpRec { task, op: oi, what: "end", item: j, token: token.clone(), inv, ret, outcome: "None".into() });
+                        }
+                    }
+                }
+            }
+        }
+    }
+}
+
+pub fn run_k(case: &KCase) -> (SimEnd, crate::sched::SimStats, KObs) {
+    let out: Arc<StdMutex<KObs>> = Arc::new(StdMutex::new(KObs::default()));
+    let out2 = out.clone();
+    let c = case.clone();
+    let (end, stats) = run_sim(&case.sched, move |ctl| {
+        let net = new_net();
+        let id = net.connect_raw(ConnOpts {
+            cli_read_plan: c.cli_read_plan.clone(),
+            cli_write_plan: c.cli_write_plan.clone(),
+            ..Default::default()
+        });
+        let (r, w) = client_pair(&net, id);
+        let mut cn = Connection::default();
+        cn.reader = Some(BufReader::new(Box::new(r)));
+        cn.writer = Some(Box::new(w));
+        let conn = Arc::new(shuttle::sync::RwLock::new(cn));
+        let results: Results = Arc::new(StdMutex::new(Vec::new()));
+        let n = c.tasks.len();
+        let done: Arc<Vec<AtomicBool>> = Arc::new((0..n).map(|_| AtomicBool::new(false)).collect());
+        let mut handles = Vec::new();
+        for (t, ops) in c.tasks.iter().enumerate() {
+            let (net2, conn2, res2, ops2, done2) = (net.clone(), conn.clone(), results.clone(), ops.clone(), done.clone());
+            handles.push(shuttle::thread::spawn(move || {
+                run_task(net2, conn2, t, ops2, res2);
+                done2[t].store(true, Ordering::SeqCst);
+            }));
+        }
+        drop(conn);
+        // ---- the fake server
+        let mut rng = Rng::new(c.sched.seed ^ 0x5E17_E17E);
+        let mut inbuf: Vec<u8> = Vec::new();
+        let mut pending: VecDeque<u8> = VecDeque::new();
+        let mut outstanding: Option<String> = None;
+        let mut arrivals: Vec<Arrival> = Vec::new();
+        let mut sv: Vec<Violation> = Vec::new();
+        let mut chunk_pos = 0usize;
+        let mut pushed = 0usize;
+        let mut closed = false;
+        let mut idle_quiescent_turns = 0;
+        let mut hang = false;
+        let mut max_frames = 0usize;
+        loop {
+            let eager = c.eager > 0 && rng.below(100) < c.eager as u64;
+            if eager {
+                for _ in 0..rng.range(1, 3) {
+                    shuttle::thread::yield_now();
+                }
+            } else {
+                wait_quiescent(&ctl);
+            }
+            let incoming = net.server_take(id);
+            let got = !incoming.is_empty();
+            inbuf.extend_from_slice(&incoming);
+            // complete frames
+            let mut frames_now = 0usize;
+            while let Some(p) = inbuf.iter().position(|b| *b == 0) {
+                let frame: Vec<u8> = inbuf.drain(..=p).collect();
+                let body = &frame[..frame.len() - 1];
+                frames_now += 1;
+                let seq = net.stamp("arrival".into());
+                let v: Option<Value> = serde_json::from_slice(body).ok();
+                let parsed = v.as_ref().and_then(|v| {
+                    let tok = v.get("parameters")?.get("token")?.as_str()?.to_string();
+                    let _m = v.get("method")?.as_str()?;
+                    Some((tok, v.get("more") == Some(&json!(true)), v.get("oneway") == Some(&json!(true)), v["parameters"]["spec"].clone()))
+                });
+                match parsed {
+                    None => sv.push(viol(
+                        "C07",
+                        "request-bytes-interleaved",
+                        format!("the server received a frame that is not one whole request: {:?}", String::from_utf8_lossy(&body[..body.len().min(120)])),
+                    )),
+                    Some((tok, more, oneway, spec)) => {
+                        if arrivals.iter().any(|a| a.token == tok) {
+                            sv.push(viol("C07", "request-sent-twice", format!("request {} arrived twice", tok)));
+                        }
+                        arrivals.push(Arrival { token: tok.clone(), more, oneway, seq });
+                        if !oneway {
+                            if let Some(o) = &outstanding {
+                                sv.push(viol(
+                                    "C07",
+                                    "two-calls-in-flight",
+                                    format!("request {} arrived while {} had not been given its final reply", tok, o),
+                                ));
+                            }
+                            outstanding = Some(tok.clone());
+                            let conts = spec.get("conts").and_then(|x| x.as_u64()).unwrap_or(0);
+                            let fin: RSpec = serde_json::from_value(spec["final"].clone()).unwrap_or(RSpec::Ok);
+                            for i in 0..conts {
+                                let mut b = serde_json::to_vec(&json!({"continues": true, "parameters": {"token": tok, "i": i}})).unwrap();
+                                b.push(0);
+                                pending.extend(b);
+                            }
+                            let mut b = serde_json::to_vec(&final_frame(&fin, &tok)).unwrap();
+                            b.push(0);
+                            pending.extend(b);
+                        }
+                    }
+                }
+            }
+            max_frames = max_frames.max(frames_now);
+            if !eager && !inbuf.is_empty() {
+                // at quiescence nobody is in the middle of a write
+                sv.push(viol(
+                    "C07",
+                    "partial-request-at-quiescence",
+                    format!("{} bytes of an unterminated request sit at the server while no client thread can run", inbuf.len()),
+                ));
+                inbuf.clear();
+            }
+            let mut released = false;
+            if !pending.is_empty() && !closed {
+                let k = match c.srv_chunks.get(chunk_pos) {
+                    Some(k) => {
+                        chunk_pos += 1;
+                        (*k as usize).max(1).min(pending.len())
+                    }
+                    None => pending.len(),
+                };
+                let mut k = k;
+                let mut close_now = false;
+                if let Some(lim) = c.eof_after {
+                    if pushed + k >= lim {
+                        k = lim.saturating_sub(pushed);
+                        close_now = true;
+                    }
+                }
+                let chunk: Vec<u8> = pending.drain(..k).collect();
+                if !chunk.is_empty() {
+                    net.server_push(id, &chunk);
+                    pushed += chunk.len();
+                }
+                released = true;
+                if close_now {
+                    net.server_close(id);
+                    closed = true;
+                    pending.clear();
+                }
+                if pending.is_empty() {
+                    outstanding = None;
+                }
+            }
+            let all_done = done.iter().all(|d| d.load(Ordering::SeqCst));
+            if all_done && pending.is_empty() {
+                // anything that still arrives was sent by an operation that already returned
+                let rest = net.server_take(id);
+                if rest.is_empty() {
+                    break;
+                }
+                inbuf.extend_from_slice(&rest);
+                continue;
+            }
+            if !eager && !got && !released {
+                idle_quiescent_turns += 1;
+                if idle_quiescent_turns == 1 && !all_done {
+                    // nothing can run, nothing to deliver, clients not finished: they hang
+                    hang = true;
+                    net.server_close(id);
+                    closed = true;
+                } else if idle_quiescent_turns > 3 {
+                    break;
+                }
+            } else {
+                idle_quiescent_turns = 0;
+            }
+        }
+        let finished = done.iter().all(|d| d.load(Ordering::SeqCst));
+        if finished {
+            for h in handles {
+                let _ = h.join();
+            }
+        }
+        let w = net.lock();
+        let mut o = out2.lock().unwrap();
+        o.ops = results.lock().unwrap_or_else(|e| e.into_inner()).clone();
+        o.arrivals = arrivals;
+        o.server_violations = sv;
+        o.log_hash = w.log_hash();
+        o.hang = hang && c.eof_after.is_none();
+        o.finished = finished;
+        o.reply_bytes = pushed;
+        o.cli_short_reads = w.cnt.cli_short_reads;
+        o.cli_read_eintr = w.cnt.cli_read_eintr;
+        o.eof_fired = closed && c.eof_after.is_some();
+        o.max_in_buffer_frames = max_frames;
+    });
+    let mut o = std::mem::take(&mut *out.lock().unwrap_or_else(|e| e.into_inner()));
+    o.ops.sort_by_key(|r| (r.inv, r.ret));
+    o.busy_seen = o.ops.iter().filter(|r| r.outcome == "E:Busy").count() as u64;
+    (end, stats, o)
+}
+
+fn conn_level(outcome: &str) -> bool {
+    outcome.starts_with("E:Closed") || outcome.starts_with("E:Io") || outcome.starts_with("E:Serde") || outcome == "E:Busy" || outcome == "E:IteratorOldReply"
+}
+
+pub fn judge_k(case: &KCase, end: &SimEnd, o: &KObs) -> (Vec<Violation>, bool) {
+    let mut v: Vec<Violation> = Vec::new();
+    match end {
+        SimEnd::Completed => {}
+        SimEnd::Panic(t) => {
+            v.push(viol("C07", "panic", format!("client code panicked: {}", t.chars().take(300).collect::<String>())));
+            return (v, false);
+        }
+        SimEnd::Deadlock(t) => {
+            v.push(viol("C07", "deadlock", format!("client threads deadlocked: {}", t.chars().take(300).collect::<String>())));
+            return (v, false);
+        }
+        SimEnd::StepBound => return (v, true),
+    }
+    v.extend(o.server_violations.iter().cloned());
+    if o.hang {
+        v.push(viol(
+            "C07",
+            "client-hangs",
+            "client threads were blocked with nothing in flight: no request at the server, no reply owed".into(),
+        ));
+    }
+    let faulty = case.eof_after.is_some();
+    // per task, walk the script and compare
+    for (t, ops) in case.tasks.iter().enumerate() {
+        let recs: Vec<&OpRec> = o.ops.iter().filter(|r| r.task == t).collect();
+        // once a `more` iteration is abandoned in this task, or anywhere: the connection stays busy
+        for (oi, op) in ops.iter().enumerate() {
+            let token = format!("t{}-{}", t, oi);
+            let mine: Vec<&&OpRec> = recs.iter().filter(|r| r.op == oi).collect();
+            let main = mine.iter().find(|r| matches!(r.what, "call" | "oneway" | "more"));
+            let main = match main {
+                Some(m) => m,
+                None => {
+                    if !faulty && !o.hang {
+                        v.push(viol("C07", "operation-never-returned", format!("operation {} {:?} never returned", token, op)));
+                    }
+                    continue;
+                }
+            };
+            let sent = o.arrivals.iter().any(|a| a.token == token);
+            if main.outcome == "E:Busy" || main.outcome == "E:CalledAlready" {
+                if sent {
+                    v.push(viol(
+                        "C07",
+                        "refused-call-left-bytes",
+                        format!("{} returned {} but its request reached the server", token, main.outcome),
+                    ));
+                }
+                if main.outcome == "E:Busy" && !faulty && !busy_legit(o, main) {
+                    v.push(viol(
+                        "C07",
+                        "busy-without-cause",
+                        format!(
+                            "{} (events {}..{}) failed with ConnectionBusy although no other call owned the connection during that interval",
+                            token, main.inv, main.ret
+                        ),
+                    ));
+                }
+                continue;
+            }
+            match op {
+                KOp::Call(spec) | KOp::Resend(spec) => {
+                    let want = expected_outcome(spec, &token);
+                    if main.outcome != want && !(faulty && conn_level(&main.outcome)) {
+                        v.push(viol(
+                            "C07",
+                            if main.outcome.starts_with("Ok:") && main.outcome.contains("\"token\"") && want.starts_with("Ok:") { "reply-for-other-call" } else { "outcome" },
+                            format!("{} call(): server replied {} -> expected {}, got {}", token, final_frame(spec, &token), want, main.outcome),
+                        ));
+                    }
+                    if let KOp::Resend(_) = op {
+                        if let Some(r2) = mine.iter().find(|r| r.what == "resend") {
+                            if r2.outcome != "E:CalledAlready" {
+                                v.push(viol(
+                                    "C07",
+                                    "second-send",
+                                    format!("{}: a second call() on the same call object returned {} instead of MethodCalledAlready", token, r2.outcome),
+                                ));
+                            }
+                        }
+                        if o.arrivals.iter().filter(|a| a.token == token).count() > 1 {
+                            v.push(viol("C07", "second-send", format!("{}: the request was written twice", token)));
+                        }
+                    }
+                }
+                KOp::Oneway => {
+                    if main.outcome != "Ok" && !(faulty && conn_level(&main.outcome)) {
+                        v.push(viol("C04", "client-oneway", format!("{} oneway() returned {}", token, main.outcome)));
+                    }
+                    if main.outcome == "Ok" && !sent && !faulty {
+                        v.push(viol("C04", "client-oneway", format!("{} oneway() returned Ok but nothing reached the server", token)));
+                    }
+                }
+                KOp::More { conts, fin, nexts, nested } => {
+                    if main.outcome != "Ok" {
+                        if !(faulty && conn_level(&main.outcome)) {
+                            v.push(viol("C05", "client-more-start", format!("{} more() returned {}", token, main.outcome)));
+                        }
+                        continue;
+                    }
+                    let mut broken = false;
+                    for j in 0..*nexts as usize {
+                        let it = mine.iter().find(|r| (r.what == "item" || r.what == "end") && r.item == j);
+                        let it = match it {
+                            Some(i) => i,
+                            None => {
+                                if !faulty && !o.hang {
+                                    v.push(viol("C05", "client-iteration", format!("{}: next() #{} never returned", token, j)));
+                                }
+                                break;
+                            }
+                        };
+                        let want = if j < *conts as usize {
+                            format!("Ok:{}", json!({"i": j, "token": token}))
+                        } else if j == *conts as usize {
+                            expected_outcome(fin, &token)
+                        } else {
+                            "None".to_string()
+                        };
+                        if it.outcome != want {
+                            if faulty && (conn_level(&it.outcome) || broken || it.outcome == "None") {
+                                broken = true;
+                                continue;
+                            }
+                            v.push(viol(
+                                "C05",
+                                "client-iteration",
+                                format!(
+                                    "{}: more() with {} continues replies then {:?}: item #{} expected {}, got {}",
+                                    token, conts, fin, j, want, it.outcome
+                                ),
+                            ));
+                            break;
+                        }
+                    }
+                    if *nested {
+                        if let Some(nr) = mine.iter().find(|r| r.what == "nested") {
+                            let outstanding = *conts >= 1;
+                            if outstanding && nr.outcome != "E:Busy" && !faulty {
+                                v.push(viol(
+                                    "C07",
+                                    "no-busy-while-iterating",
+                                    format!("{}: a new call while the more-iteration was outstanding returned {} instead of ConnectionBusy", token, nr.outcome),
+                                ));
+                            }
+                            if nr.outcome == "E:Busy" && o.arrivals.iter().any(|a| a.token == nr.token) {
+                                v.push(viol("C07", "refused-call-left-bytes", format!("{} returned Busy but its request reached the server", nr.token)));
+                            }
+                        }
+                    }
+                }
+            }
+        }
+    }
+    // every arrival belongs to an operation of the script
+    for a in &o.arrivals {
+        let known = o.ops.iter().any(|r| r.token == a.token) || case.tasks.iter().enumerate().any(|(t, ops)| (0..ops.len()).any(|i| format!("t{}-{}", t, i) == a.token));
+        if !known {
+            v.push(viol("C07", "unknown-request", format!("request {} reached the server but belongs to no operation", a.token)));
+        }
+    }
+    (v, false)
+}
+
+/// a ConnectionBusy result is legitimate only if another call owned (or may have owned) the
+/// connection at some instant of the attempt
+fn busy_legit(o: &KObs, attempt: &OpRec) -> bool {
+    for r in &o.ops {
+        if r.task == attempt.task && r.op == attempt.op && r.what == attempt.what {
+            continue;
+        }
+        if !matches!(r.what, "call" | "more" | "nested") || r.outcome == "E:Busy" || r.outcome == "E:CalledAlready" {
+            continue;
+        }
+        // ownership interval of r
+        let start = r.inv;
+        let end = if r.what != "more" {
+            r.ret
+        } else {
+            // until its final item was handed back
+            let mut e = u64::MAX;
+            for it in o.ops.iter().filter(|x| x.task == r.task && x.op == r.op && (x.what == "item")) {
+                let is_final = !it.outcome.contains("\"i\":");
+                if is_final {
+                    e = it.ret;
+                }
+            }
+            e
+        };
+        if start <= attempt.ret && attempt.inv <= end {
+            return true;
+        }
+    }
+    false
+}
+
+pub fn eval_k(case: &KCase) -> RunResult {
+    let (end, stats, o) = run_k(case);
+    let (mut violations, inconclusive) = judge_k(case, &end, &o);
+    let mut seen: Vec<(&'static str, String)> = Vec::new();
+    violations.retain(|x| {
+        let k = (x.prop, x.clause.clone());
+        if seen.contains(&k) {
+            false
+        } else {
+            seen.push(k);
+            true
+        }
+    });
+    let mut sig = Fnv::new();
+    let mut nosched = case.clone();
+    nosched.sched = SchedCfg::uniform(0);
+    sig.str(&serde_json::to_string(&nosched).unwrap());
+    sig.u64(stats.switch_hash);
+    let mut lh = Fnv::new();
+    lh.u64(o.log_hash);
+    for r in &o.ops {
+        lh.str(&format!("{} {} {} {} {}", r.token, r.what, r.item, r.inv, r.outcome));
+    }
+    let nthreads = case.tasks.len();
+    RunResult {
+        violations,
+        sig: sig.0,
+        nontrivial: case.tasks.iter().map(|t| t.len()).sum::<usize>() >= 2,
+        faults: vec![
+            ("client_short_read", o.cli_short_reads),
+            ("client_read_eintr", o.cli_read_eintr),
+            ("server_closed_mid_stream", o.eof_fired as u64),
+        ],
+        probes: vec![
+            ("connection_busy_returned", o.busy_seen),
+            ("threads_ge_2", (nthreads >= 2) as u64),
+            ("requests_reached_server", o.arrivals.len() as u64),
+            ("two_requests_in_one_server_turn", (o.max_in_buffer_frames >= 2) as u64),
+        ],
+        sim_ms: 0,
+        steps: stats.steps,
+        log_hash: lh.0,
+        inconclusive: inconclusive || (!o.finished && !matches!(end, SimEnd::Deadlock(_) | SimEnd::Panic(_)) && case.eof_after.is_none() && !o.hang),
+        sample: Some(json!({
+            "scenario": "K1",
+            "tasks": case.tasks.iter().map(|t| format!("{:?}", t)).collect::<Vec<_>>(),
+            "client_read_plan": case.cli_read_plan.iter().take(8).collect::<Vec<_>>(),
+            "server_chunks": case.srv_chunks.iter().take(8).collect::<Vec<_>>(),
+            "eof_after": case.eof_after,
+            "history": o.ops.iter().take(24).map(|r| format!("[{}..{}] {} {}#{} -> {}", r.inv, r.ret, r.token, r.what, r.item, r.outcome)).collect::<Vec<_>>(),
+            "scheduler_steps": stats.steps,
+            "context_switches": stats.switches,
+        })),
+    }
+}
+
+pub fn shrinks(c: &KCase) -> Vec<KCase> {
+    let mut v = Vec::new();
+    if c.tasks.len() > 1 {
+        for t in 0..c.tasks.len() {
+            let mut n = c.clone();
+            n.tasks.remove(t);
+            v.push(n);
+        }
+    }
+    for t in 0..c.tasks.len() {
+        for i in 0..c.tasks[t].len() {
+            let mut n = c.clone();
+            n.tasks[t].remove(i);
+            v.push(n);
+        }
+    }
+    if !c.cli_read_plan.is_empty() {
+        let mut n = c.clone();
+        n.cli_read_plan.clear();
+        v.push(n);
+    }
+    if !c.cli_write_plan.is_empty() {
+        let mut n = c.clone();
+        n.cli_write_plan.clear();
+        v.push(n);
+    }
+    if !c.srv_chunks.is_empty() {
+        let mut n = c.clone();
+        n.srv_chunks.clear();
+        v.push(n);
+    }
+    if c.eager > 0 {
+        let mut n = c.clone();
+        n.eager = 0;
+        v.push(n);
+    }
+    v
+}
+
+pub fn pin_schedule(c: &KCase, prop: &str, clause: &str) -> KCase {
+    let (_, stats, _) = run_k(c);
+    let mut pinned = c.clone();
+    pinned.sched.replay = Some(stats.choices.clone());
+    let fails = |cand: &KCase| eval_k(cand).violations.iter().any(|v| v.prop == prop && v.clause == clause);
+    if !fails(&pinned) {
+        return c.clone();
+    }
+    let short = crate::sched::shrink_choices(
+        &stats.choices,
+        |ch| {
+            let mut n = pinned.clone();
+            n.sched.replay = Some(ch.to_vec());
+            fails(&n)
+        },
+        40,
+    );
+    pinned.sched.replay = Some(short);
+    pinned
+}
+
+// ---------------------------------------------------------------------------------------------
+// spaces
+
+pub const REAL_K: [&str; 4] = [
+    "varlink::Connection (reader/writer slots) behind Arc<RwLock<..>>",
+    "varlink::MethodCall::{new, send, call, more, next, recv, oneway}",
+    "impl From<Reply> for ErrorKind (error-name mapping), Reply deserialisation",
+    "std BufReader / read_until / write_all retry loops over the simulated socket",
+];
+pub const STUB_K: [&str; 3] = [
+    "the server (scripted by the environment task: replies per request spec, withheld until its turn)",
+    "the socket (simulated pipes: short reads, EINTR, short writes, server close in mid-stream)",
+    "std threads and RwLock (shuttle coroutines; PlanScheduler decides every switch)",
+];
+
+fn all_specs() -> Vec<RSpec> {
+    let mut v = vec![RSpec::Ok, RSpec::OkNoParams];
+    for name in 0..5u8 {
+        for params in 0..4u8 {
+            v.push(RSpec::Err { name, params });
+        }
+    }
+    v
+}
+
+fn op_alphabet() -> Vec<KOp> {
+    vec![
+        KOp::Call(RSpec::Ok),
+        KOp::Call(RSpec::Err { name: 1, params: 0 }),
+        KOp::Call(RSpec::Err { name: 4, params: 0 }),
+        KOp::Oneway,
+        KOp::Resend(RSpec::Ok),
+        KOp::More { conts: 0, fin: RSpec::Ok, nexts: 2, nested: false },
+        KOp::More { conts: 2, fin: RSpec::Ok, nexts: 4, nested: false },
+        KOp::More { conts: 2, fin: RSpec::Err { name: 4, params: 1 }, nexts: 4, nested: true },
+        KOp::More { conts: 1, fin: RSpec::Ok, nexts: 3, nested: true },
+    ]
+}
+
+fn random_op(rng: &mut Rng, specs: &[RSpec], allow_abandon: bool) -> KOp {
+    match rng.below(10) {
+        0..=3 => KOp::Call(rng.pick(specs).clone()),
+        4 | 5 => KOp::Oneway,
+        6 => KOp::Resend(rng.pick(specs).clone()),
+        _ => {
+            let conts = rng.range(0, 8) as u8;
+            let nexts = if allow_abandon && rng.chance(1, 10) { rng.range(0, conts as u64) as u8 } else { conts + 1 + rng.range(0, 2) as u8 };
+            KOp::More {
+                conts,
+                fin: rng.pick(specs).clone(),
+                nexts,
+                nested: rng.chance(1, 3),
+            }
+        }
+    }
+}
+
+fn io_plans(rng: &mut Rng, c: &mut KCase, eintr: bool) {
+    if rng.chance(1, 2) {
+        c.cli_read_plan = (0..rng.range(1, 40))
+            .map(|_| if eintr && rng.chance(1, 6) { 0 } else { rng.range(1, 40) as u16 })
+            .collect();
+    }
+    if rng.chance(1, 3) {
+        c.cli_write_plan = (0..rng.range(1, 20)).map(|_| rng.range(1, 30) as u16).collect();
+    }
+    if rng.chance(1, 2) {
+        c.srv_chunks = (0..rng.range(1, 40)).map(|_| rng.range(1, 50) as u16).collect();
+    }
+    if rng.chance(1, 3) {
+        c.eager = *rng.pick(&[20u8, 50, 90]);
+    }
+}
+
+fn base_case(tasks: Vec<Vec<KOp>>, sched: SchedCfg) -> KCase {
+    KCase {
+        tasks,
+        cli_read_plan: vec![],
+        cli_write_plan: vec![],
+        srv_chunks: vec![],
+        eager: 0,
+        eof_after: None,
+        sched,
+    }
+}
+
+pub fn c07_plan(tier: Tier) -> Plan {
+    let mut spaces = Vec::new();
+    // every reply object, one call each
+    {
+        let specs = all_specs();
+        spaces.push(Space {
+            name: "K.reply.all",
+            size: specs.len() as u64 * 2,
+            exhaustive: true,
+            gen: Box::new(move |idx, seed| {
+                let spec = specs[(idx / 2) as usize].clone();
+                let op = if idx % 2 == 0 { KOp::Call(spec) } else { KOp::More { conts: 1, fin: spec, nexts: 3, nested: false } };
+                Case::K(base_case(vec![vec![op, KOp::Call(RSpec::Ok)]], SchedCfg::uniform(seed)))
+            }),
+        });
+    }
+    // one thread: every operation sequence up to length 3 (quick) / 4 (thorough)
+    {
+        let alpha = op_alphabet();
+        let a = alpha.len() as u64;
+        let maxlen: u32 = if tier == Tier::Quick { 3 } else { 4 };
+        let mut size = 0;
+        for l in 1..=maxlen {
+            size += a.pow(l);
+        }
+        spaces.push(Space {
+            name: "K.seq.single-thread",
+            size,
+            exhaustive: true,
+            gen: Box::new(move |mut idx, seed| {
+                let mut len = 1u32;
+                loop {
+                    if idx < a.pow(len) {
+                        break;
+                    }
+                    idx -= a.pow(len);
+                    len += 1;
+                }
+                let mut ops = Vec::new();
+                for _ in 0..len {
+                    ops.push(alpha[(idx % a) as usize].clone());
+                    idx /= a;
+                }
+                Case::K(base_case(vec![ops], SchedCfg::uniform(seed)))
+            }),
+        });
+    }
+    // 2..8 threads sharing the connection
+    {
+        let n = if tier == Tier::Quick { 12_000 } else { 400_000 };
+        let specs = all_specs();
+        spaces.push(Space {
+            name: "K.threads.random",
+            size: n,
+            exhaustive: false,
+            gen: Box::new(move |_idx, seed| {
+                let mut rng = Rng::new(seed);
+                let nt = if rng.chance(1, 5) { rng.range(2, 8) } else { rng.range(2, 3) } as usize;
+                let abandon = rng.chance(1, 8);
+                let tasks: Vec<Vec<KOp>> = (0..nt)
+                    .map(|_| (0..rng.range(1, 6)).map(|_| random_op(&mut rng, &specs, abandon)).collect())
+                    .collect();
+                let mut c = base_case(tasks, SchedCfg::random(&mut rng, 1));
+                io_plans(&mut rng, &mut c, false);
+                Case::K(c)
+            }),
+        });
+    }
+    // fault-injecting configuration: EINTR on client reads, server closing in mid-stream
+    {
+        let n = if tier == Tier::Quick { 4_000 } else { 100_000 };
+        let specs = all_specs();
+        spaces.push(Space {
+            name: "K.threads.faults",
+            size: n,
+            exhaustive: false,
+            gen: Box::new(move |_idx, seed| {
+                let mut rng = Rng::new(seed);
+                let nt = rng.range(1, 4) as usize;
+                let tasks: Vec<Vec<KOp>> = (0..nt)
+                    .map(|_| (0..rng.range(1, 5)).map(|_| random_op(&mut rng, &specs, false)).collect())
+                    .collect();
+                let mut c = base_case(tasks, SchedCfg::random(&mut rng, 1));
+                io_plans(&mut rng, &mut c, true);
+                if rng.chance(1, 2) {
+                    c.eof_after = Some(rng.range(0, 300) as usize);
+                }
+                Case::K(c)
+            }),
+        });
+    }
+    Plan {
+        spaces,
+        rule: "K1: the real client against a scripted server on a simulated socket pair. (a) every reply object (with/without error; the four standard error names and a custom one, each with proper / absent / ill-typed / foreign parameters) through call() and as the final reply of a more() iteration; (b) one thread, every operation sequence over a 9-operation alphabet {call ok/std error/custom error, oneway, second send on the same object, more with 0..2 continues replies ending in a result or an error, new call while iterating} up to length 3 (quick) / 4 (thorough), complete; (c) 2..8 threads sharing one Arc<RwLock<Connection>>, 1..6 random operations each, under seeded schedules, with client short reads / short writes, replies released in random chunks, sometimes before quiescence; (d) the same with EINTR on client reads and the server closing in mid-stream (outcomes relaxed to: expected result or a connection-level error, never wrong data). Oracles: bytes at the server are whole requests, at most one non-oneway request in flight, a refused call leaves no bytes, every result carries its own token and the mapped error kind, ConnectionBusy only when another call's ownership interval (event sequence numbers) overlaps the attempt, second send = MethodCalledAlready, no hang. Distinct = (case, hash of the context-switch sequence).".into(),
+        level: "exploration",
+        real: REAL_K.to_vec(),
+        stub: STUB_K.to_vec(),
+        assumptions: vec![
+            "a reply carrying continues:true to a call that did not ask for more is outside the explored reply space (no property says what the client owes then)".into(),
+            "shuttle's RwLock model is faithful to std's".into(),
+        ],
+    }
+}
+
+/// C05 client side: scripted reply streams against the real iterator
+pub fn c05_spaces(tier: Tier) -> Vec<Space> {
+    let mut spaces = Vec::new();
+    {
+        // k continues replies x every final spec x followed by call / more / oneway+call
+        let specs = all_specs();
+        let kmax = 9u64;
+        let size = kmax * specs.len() as u64 * 3;
+        spaces.push(Space {
+            name: "K.stream.all",
+            size,
+            exhaustive: true,
+            gen: Box::new(move |idx, seed| {
+                let k = (idx % kmax) as u8;
+                let spec = specs[((idx / kmax) % specs.len() as u64) as usize].clone();
+                let follow = idx / kmax / specs.len() as u64;
+                let mut ops = vec![KOp::More { conts: k, fin: spec, nexts: k + 3, nested: false }];
+                match follow {
+                    0 => ops.push(KOp::Call(RSpec::Ok)),
+                    1 => ops.push(KOp::More { conts: 1, fin: RSpec::Ok, nexts: 3, nested: false }),
+                    _ => {
+                        ops.push(KOp::Oneway);
+                        ops.push(KOp::Call(RSpec::Ok));
+                    }
+                }
+                Case::K(base_case(vec![ops], SchedCfg::uniform(seed)))
+            }),
+        });
+    }
+    {
+        let n = if tier == Tier::Quick { 4_000 } else { 100_000 };
+        let specs = all_specs();
+        spaces.push(Space {
+            name: "K.stream.segmented",
+            size: n,
+            exhaustive: false,
+            gen: Box::new(move |_idx, seed| {
+                let mut rng = Rng::new(seed);
+                let mut ops = Vec::new();
+                for _ in 0..rng.range(1, 3) {
+                    let k = rng.range(0, 8) as u8;
+                    ops.push(KOp::More { conts: k, fin: rng.pick(&specs).clone(), nexts: k + 1 + rng.range(0, 2) as u8, nested: rng.chance(1, 4) });
+                    if rng.chance(1, 2) {
+                        ops.push(KOp::Call(rng.pick(&specs).clone()));
+                    }
+                }
+                let mut c = base_case(vec![ops], SchedCfg::random(&mut rng, 1));
+                io_plans(&mut rng, &mut c, true);
+                if rng.chance(1, 4) {
+                    c.eof_after = Some(rng.range(0, 400) as usize);
+                }
+                Case::K(c)
+            }),
+        });
+    }
+    spaces
+}
+
+/// C04 client side against the scripted server: oneway() returns after sending without consuming a
+/// reply, the next call gets its own reply
+pub fn c04_spaces(tier: Tier) -> Vec<Space> {
+    let mut spaces = Vec::new();
+    {
+        // every pattern of oneway / call up to 6 operations
+        let maxlen = 6u32;
+        let mut size = 0u64;
+        for l in 1..=maxlen {
+            size += 2u64.pow(l);
+        }
+        spaces.push(Space {
+            name: "K.oneway.patterns",
+            size,
+            exhaustive: true,
+            gen: Box::new(move |mut idx, seed| {
+                let mut len = 1u32;
+                loop {
+                    if idx < 2u64.pow(len) {
+                        break;
+                    }
+                    idx -= 2u64.pow(len);
+                    len += 1;
+                }
+                let ops: Vec<KOp> = (0..len).map(|i| if idx >> i & 1 == 1 { KOp::Oneway } else { KOp::Call(RSpec::Ok) }).collect();
+                let mut c = base_case(vec![ops], SchedCfg::uniform(seed));
+                c.eager = 50;
+                Case::K(c)
+            }),
+        });
+    }
+    {
+        let n = if tier == Tier::Quick { 2_000 } else { 50_000 };
+        let specs = all_specs();
+        spaces.push(Space {
+            name: "K.oneway.threads",
+            size: n,
+            exhaustive: false,
+            gen: Box::new(move |_idx, seed| {
+                let mut rng = Rng::new(seed);
+                let nt = rng.range(1, 3) as usize;
+                let tasks: Vec<Vec<KOp>> = (0..nt)
+                    .map(|_| {
+                        (0..rng.range(1, 6))
+                            .map(|_| if rng.chance(1, 2) { KOp::Oneway } else { random_op(&mut rng, &specs, false) })
+                            .collect()
+                    })
+                    .collect();
+                let mut c = base_case(tasks, SchedCfg::random(&mut rng, 1));
+                io_plans(&mut rng, &mut c, false);
+                Case::K(c)
+            }),
+        });
+    }
+    spaces
+}
